@@ -49,6 +49,9 @@ func newTimeSeriesAndSamples(c chan *model.ParserResponse,
 
 func fastFillArray[T any](len int, val T) []T {
 	res := make([]T, len)
+	if len == 0 {
+		return res
+	}
 	res[0] = val
 	_len := 1
 	for _len < len {
